@@ -32,7 +32,7 @@ def run(ctx, report: Report) -> None:
     facts = Bs4Facts()
 
     # ---- R1 ----------------------------------------------------------------------------------------------
-    r1 = report.rule('C19-R1', 'node-kind classification is exhaustive', floor=6)
+    r1 = report.rule('C19-R1', 'node-kind classification is exhaustive', floor=7)
     _, iss = src.func('css_match._DocumentNav.is_special_string')
     tup = None
     for c in ast.walk(iss):
@@ -94,7 +94,7 @@ def run(ctx, report: Report) -> None:
         r1.violation('is_navigable_string', mmod.where(ins), 'is_navigable_string no longer tests for NavigableString')
 
     # ---- R2 ----------------------------------------------------------------------------------------------
-    r2 = report.rule('C19-R2', 'every text reader is guarded by the classification', floor=5)
+    r2 = report.rule('C19-R2', 'every text reader is guarded by the classification', floor=117)
     readers = {'_DocumentNav.get_text': 'is_content_string', '_DocumentNav.get_own_text': 'is_content_string',
                'CSSMatch.match_empty': 'is_content_string', 'CSSMatch.match_root': 'is_content_string',
                'CSSMatch.find_bidi': 'is_special_string', 'CSSMatch.match_dir': 'is_content_string'}
@@ -172,7 +172,7 @@ def run(ctx, report: Report) -> None:
                              f'{"joined without separator" if src_kind == "descendants" else "one entry per node"})')
 
     # ---- R3 (decision table of match_contains by partial evaluation) -----------------------------------------
-    r3 = report.rule('C19-R3', 'any-of-list substring semantics: joined descendant text vs. one own text node', floor=20)
+    r3 = report.rule('C19-R3', 'any-of-list substring semantics: joined descendant text vs. one own text node', floor=59)
     _, mc = src.func('css_match.CSSMatch.match_contains')
     own_nodes, joined = ['ab', 'cd'], 'abXcd'       # own text nodes of the element / text of all descendants
     from .sem import real_matcher
@@ -253,7 +253,7 @@ def run(ctx, report: Report) -> None:
                          f'that merely compares equal (bs4 compares tags by markup and strings by characters; the memo must be keyed by identity)')
 
     # ---- R4 ----------------------------------------------------------------------------------------------
-    r4 = report.rule('C19-R4', 'needles reach the IR undistorted', floor=2)
+    r4 = report.rule('C19-R4', 'needles reach the IR undistorted', floor=3)
     pmod, pcs = src.func('css_parser.CSSParser.parse_pseudo_contains')
     flow = StrFlow(src, pmod, pcs, 'CSSParser')
     sinks = [c for c in walk_no_nested(pcs) if isinstance(c, ast.Call) and src.resolve_class_ref(pmod, c.func) == 'css_types.SelectorContains']
@@ -286,7 +286,7 @@ def run(ctx, report: Report) -> None:
         r4.violation('contains alias warning elsewhere', 'soupsieve/css_parser.py', f'the :contains deprecation warning is emitted in {sorted(where)}')
 
     # ---- R5 ----------------------------------------------------------------------------------------------
-    r5 = report.rule('C19-R5', ':empty uses the CSS whitespace set', floor=2)
+    r5 = report.rule('C19-R5', ':empty uses the CSS whitespace set', floor=3)
     r = inv.find('css_match.RE_NOT_EMPTY')
     d = 'missing'
     if r is not None:
